@@ -473,27 +473,32 @@ def flush (cx : Ctx) (h : Cells) (m : Multi) (wh : Nat) (fill : UInt8) : Cells Ã
     (h', { m1 with rows := rows' })
   else (h1, m1)
 
+/-- one row of `Truncate`: after an error nothing more is done -/
+def truncStep (st en : Int) (acc : List Lin Ã— Bool) (r : Lin) : List Lin Ã— Bool :=
+  if !acc.2 then (acc.1 ++ [r], false) else
+  match r.truncate st en with
+  | some r' => (acc.1 ++ [r'], true)
+  | none => (acc.1 ++ [r], false)
+
 /-- `Truncate(start, end)`: rows are truncated in order; at the first row that does not
     cover the range the error is returned and the rows before it stay truncated
     (`false` = error return) -/
 def truncate (m : Multi) (st en : Int) : Multi Ã— Bool :=
-  let (rows', ok) := m.rows.foldl (fun (acc : List Lin Ã— Bool) r =>
-    if !acc.2 then (acc.1 ++ [r], false) else
-    match r.truncate st en with
-    | some r' => (acc.1 ++ [r'], true)
-    | none => (acc.1 ++ [r], false)) ([], true)
-  ({ m with rows := rows' }, ok)
+  let res := m.rows.foldl (truncStep st en) ([], true)
+  ({ m with rows := res.1 }, res.2)
+
+/-- one row of `Subseq`: clone, truncate the clone in place -/
+def subseqStep (cx : Ctx) (st en : Int) (acc : Cells Ã— List Lin Ã— Bool) (r : Lin) : Cells Ã— List Lin Ã— Bool :=
+  if !acc.2.2 then acc else
+  match ((r.clone cx acc.1).2).truncate st en with
+  | some c' => ((r.clone cx acc.1).1, acc.2.1 ++ [c'], true)
+  | none => ((r.clone cx acc.1).1, acc.2.1, false)
 
 /-- `Subseq(start, end)` after fix F10: every row cloned, the clone truncated in place;
     `none` = error return (nothing is retained) -/
 def subseq (cx : Ctx) (h : Cells) (m : Multi) (st en : Int) : Cells Ã— Option Multi :=
-  let (h', rows', ok) := m.rows.foldl (fun (acc : Cells Ã— List Lin Ã— Bool) r =>
-    if !acc.2.2 then acc else
-    let (h1, c) := r.clone cx acc.1
-    match c.truncate st en with
-    | some c' => (h1, acc.2.1 ++ [c'], true)
-    | none => (h1, acc.2.1, false)) (h, [], true)
-  (h', if ok then some { m with rows := rows' } else none)
+  let res := m.rows.foldl (subseqStep cx st en) (h, [], true)
+  (res.1, if res.2.2 then some { m with rows := res.2.1 } else none)
 
 /-- `Add(n...)` (same alphabet) -/
 def add (m : Multi) (seqs : List Lin) : Multi := { m with rows := m.rows ++ seqs }
